@@ -49,6 +49,22 @@ EMPTY_DIRS = {"D3e": [("e",), ("d", "f", "g"), ("zz",)]}
 SHAPES["D3e"] = [("a",), ("d", "b"), ("m",)]
 
 
+# scale / count: many files in one directory, many directories, deep nesting,
+# long names (sizes for these come as explicit vectors, see e1.cyclic_vectors)
+SHAPES["W40"] = [(f"f{i:02d}",) for i in range(40)]
+SHAPES["W300"] = [(f"f{i:03d}",) for i in range(100)] + \
+    [(f"d{i % 7}", f"g{i:03d}") for i in range(150)] + \
+    [(f"d{i % 3}", f"s{i % 5}", f"h{i:03d}") for i in range(50)]
+SHAPES["W1100"] = [(f"f{i:04d}",) for i in range(1100)]
+SHAPES["N16"] = [tuple(f"n{j}" for j in range(16)) + ("a",),
+                 ("n0", "b"),
+                 tuple(f"n{j}" for j in range(8)) + ("c",),
+                 tuple(f"n{j}" for j in range(16)) + ("d",),
+                 ("z",)]
+SHAPES["L250"] = [("a" * 250,), ("d" * 250, "b" * 250), ("a" * 249 + "b",),
+                  ("e",)]
+
+
 def nfiles(shape):
     return 1 if SHAPES[shape] is None else len(SHAPES[shape])
 
